@@ -1,5 +1,7 @@
 import Vflow.Proofs.RoundV9
 import Vflow.Proofs.HeaderLayouts
+import Vflow.Gen.Sites
+import Vflow.Spec.Sites
 /-!
 # C06 — NetFlow v9: data records are decoded exactly as their templates describe
 
@@ -168,5 +170,10 @@ theorem gen_fieldSpec_layout (r : Rd) (id len : Nat) (r2 : Rd)
     V9.readSpec r = (.ok ⟨id, len, 0⟩, r2) := HeaderLayouts.v9_fieldSpec_read r id len r2 h
 theorem gen_fieldSpec_short (r : Rd) (h : V5.readFields (V5.widths Gen.Layouts.v9FieldSpec) r = none) :
     (V9.readSpec r).1 = .error .short := HeaderLayouts.v9_fieldSpec_short r h
+
+/-- **Tie (control-flow skeleton)**: every branch / loop condition, switch case and `break` / `continue` of the
+sources this model mirrors, re-extracted on every run, is exactly the reviewed inventory in `Spec/Sites.lean`
+(which names the model clause of each).  A changed bound, a new or dropped branch breaks this obligation. -/
+theorem guards_reviewed : Gen.Sites.guardsV9 = Spec.Sites.guardsV9 := by decide +kernel
 
 end Vflow.C06
